@@ -10,7 +10,7 @@ LEVELS = {
         'note': 'Trusted: the pyvc VC generator and its encoding of the Python subset (DESIGN.md 1.3), z3/cvc5, CPython for the '
                 'bounded part; callbacks are assumed not to mutate scanner-internal objects.',
         'technique': TECH + '; bounded stand-in: exhaustive strings up to length 4/5 over an 12-letter alphabet, all positions',
-        'clauses': 'P: Scanner.*, css scan/literal/comment/whitespace, ...; B: html-exhaustive, css-exhaustive.',
+        'clauses': 'P: Scanner.*, css scan/literal/comment/whitespace, ...; B: html-exhaustive, css-exhaustive; added in the third session: html-token-sequences, css-token-sequences, html-special-attributed, html-random-attributed-mutated.',
     },
     'C18': {
         'category': 'proof',
@@ -26,7 +26,7 @@ LEVELS = {
                 'conversions; the contract of css parse_color (leaf string builder: exception freedom assumed, checked at run '
                 'time by the bounded clause and completely for 1-3 digit colours by C05); z3.',
         'technique': TECH + '; cross-check: exhaustive strings up to length 4 over two 19-letter alphabets',
-        'clauses': 'P: all of abbreviation/tokenizer and css_abbreviation/tokenizer except parse_color (trusted).',
+        'clauses': 'P: all of abbreviation/tokenizer and css_abbreviation/tokenizer except parse_color (trusted); added in the third session: markup-exhaustive, stylesheet-exhaustive, markup-random, stylesheet-random.',
     },
     'C05': {
         'category': 'other',
@@ -34,7 +34,7 @@ LEVELS = {
         'design_ref': 'DESIGN.md section 7 (C05)',
         'note': 'Trusted: pyvc encoding; parse_color contract (decided by the finite-domain clause for 1-3 digits, bounded for 6); CPython for enumeration.',
         'technique': TECH + '; finite-domain enumeration of colour channels/forms; bounded stand-in: exhaustive value sequences up to 3 values x syntaxes x options',
-        'clauses': 'P: css tokenizer (shared with C18); F: hex-channel, color-short-forms; B: value-sequences, conventions-options, plus-pairs, random-long, dict-config, color-six-digit.',
+        'clauses': 'P: css tokenizer (shared with C18); F: hex-channel, color-short-forms; B: value-sequences, conventions-options, plus-pairs, random-long, dict-config, color-six-digit; added in the third session: number-magnitudes, alpha-precision.',
     },
     'C06': {
         'category': 'other',
@@ -42,7 +42,7 @@ LEVELS = {
         'design_ref': 'DESIGN.md section 7 (C06)',
         'note': 'Trusted: CPython for enumeration. Known finding KF-C06-LG (gradient shortcut lg) is reported, not suppressed for other inputs.',
         'technique': TECH + '; complete finite-domain enumeration of the built-in snippet table; bounded stand-in for user tables',
-        'clauses': 'P: stylesheet.find_best_match; F: builtin-keys, builtin-keys-scoped, builtin-keywords, user-override-builtin; B: user-tables, user-case-keys.',
+        'clauses': 'P: stylesheet.find_best_match; F: builtin-keys, builtin-keys-scoped, builtin-keywords, user-override-builtin; B: user-tables, user-case-keys; added in the third session: builtin-inner-keywords, user-keywords, history-independence.',
     },
     'C09': {
         'category': 'other',
@@ -50,7 +50,7 @@ LEVELS = {
         'design_ref': 'DESIGN.md section 7 (C09)',
         'note': 'Trusted: pyvc encoding; is_special and ScannerOptions contracts (user supplied tables are opaque); callbacks do not mutate scanner-internal objects.',
         'technique': TECH + '; bounded stand-in: generated documents with ground truth (300 trees quick / 5000 thorough, all positions) + exhaustive tiny forests',
-        'clauses': 'P: html_matcher utils/attributes/scan/match/balanced_outward closures; B: html-tree-html, html-tree-xml, html-tiny-exhaustive.',
+        'clauses': 'P: html_matcher utils/attributes/scan/match/balanced_outward closures; B: html-tree-html, html-tree-xml, html-tiny-exhaustive; added in the third session: html-edge-html, html-edge-xml, html-edge-tiny-exhaustive.',
     },
     'C10': {
         'category': 'other',
@@ -58,7 +58,7 @@ LEVELS = {
         'design_ref': 'DESIGN.md section 7 (C10)',
         'note': 'Trusted: pyvc encoding. Known findings KF-C10-P (delimiters inside parentheses) and KF-C10-L (leading selector colons) are genuine defects recorded, not repaired.',
         'technique': TECH + '; bounded stand-in: generated stylesheets with ground truth, all positions + exhaustive tiny documents',
-        'clauses': 'P: css_matcher scan/literal/comment/match/balanced_outward/inner_range/split_value; B: css-tree, css-outward-later-rules, css-declaration-tail, css-tiny-exhaustive, probes.',
+        'clauses': 'P: css_matcher scan/literal/comment/match/balanced_outward/inner_range/split_value; B: css-tree, css-outward-later-rules, css-declaration-tail, css-tiny-exhaustive, probes; added in the third session: css-outward-later-rules-probe, css-declaration-tail-probe, css-paren-delimiters-probe, css-leading-colon-probe, css-string-quotes, css-string-exhaustive, css-nested-parens, css-nested-parens-exhaustive.',
     },
     'C17': {
         'category': 'other',
@@ -66,7 +66,7 @@ LEVELS = {
         'design_ref': 'DESIGN.md section 7 (C17)',
         'note': 'Trusted: pyvc encoding; CPython for the bounded part.',
         'technique': TECH + '; bounded stand-in: generated HTML/CSS documents with ground truth for every range the helpers report',
-        'clauses': 'P: shared scanner/matcher functions, action_utils utils/html/css (19 functions and 7 closures); B: html-actions, css-actions, css-section-unterminated, tiny-exhaustive families.',
+        'clauses': 'P: shared scanner/matcher functions, action_utils utils/html/css (19 functions and 7 closures); B: html-actions, css-actions, css-section-unterminated, tiny-exhaustive families; added in the third session: html-actions-value-shapes, html-actions-value-shapes-small-exhaustive, css-section-unterminated-probe, html-actions-tiny-exhaustive, css-actions-tiny-exhaustive.',
     },
     'C20': {
         'category': 'other',
@@ -82,7 +82,7 @@ LEVELS = {
         'design_ref': 'DESIGN.md section 7 (C01)',
         'note': 'Trusted: CPython for the bounded part; the independent tag parser / executable spec of the bounded oracle.',
         'technique': TECH + '; bounded stand-in: exhaustive operator skeletons + random large trees',
-        'clauses': 'P: implicit_tag.resolve_implicit_tag, get_parent_element, abbreviation tokenizer, markup parser (safety, termination), converters (frame, stack discipline); B: skeleton-exhaustive, implicit-name-table, climb-clamp, random-large.',
+        'clauses': 'P: implicit_tag.resolve_implicit_tag, get_parent_element, abbreviation tokenizer, markup parser (safety, termination), converters (frame, stack discipline); B: skeleton-exhaustive, implicit-name-table, climb-clamp, random-large; added in the third session: self-closing-parents, snippet-call-histories.',
     },
     'C02': {
         'category': 'other',
@@ -90,7 +90,7 @@ LEVELS = {
         'design_ref': 'DESIGN.md section 7 (C02)',
         'note': 'Trusted: CPython for the bounded part; the independent tag parser / executable spec of the bounded oracle. Assumed contracts (trusted=True): AbbreviationNode.__init__ and convert_attribute (names and values are rendered through stringify(), a globals()-based dispatch outside the verified subset), ConvertState.get_text (caller data), convert.some. Assumed typing at the module boundary: the parser stores Repeater tokens in .repeat (class view CvTokenElement/CvTokenGroup). The converters\' frame names two output-node fields class-wide (AbbreviationNode::value, AbbreviationNode::repeat).',
         'technique': TECH + '; bounded stand-in: exhaustive repeater grammar + random',
-        'clauses': 'P: tokenizer repeater/repeater_number; convert.convert_statement (ensures_local over the ghost copy counter), convert_group, convert_element, attach_repeater, clone_repeater, insert_text, deepest_node; stringify.RepeaterNumber, RepeaterPlaceholder; B: copies-maxrepeat, numbering-forms, random-beyond (+ clauses added in the third round, see evidence).',
+        'clauses': 'P: tokenizer repeater/repeater_number; convert.convert_statement (ensures_local over the ghost copy counter), convert_group, convert_element, attach_repeater, clone_repeater, insert_text, deepest_node; stringify.RepeaterNumber, RepeaterPlaceholder; B: copies-maxrepeat, numbering-forms, random-beyond; added in the third session: numbering-beside-placeholders, random-placeholders.',
     },
     'C03': {
         'category': 'other',
@@ -98,7 +98,7 @@ LEVELS = {
         'design_ref': 'DESIGN.md section 7 (C03)',
         'note': 'Trusted: CPython for the bounded part; the independent tag parser / executable spec of the bounded oracle.',
         'technique': TECH + '; bounded stand-in: exhaustive attribute mention sequences',
-        'clauses': 'P: markup.attributes.merge_declarations; B: attr-sequences-exhaustive, attr-options-exhaustive, attr-owner-element.',
+        'clauses': 'P: markup.attributes.merge_declarations; B: attr-sequences-exhaustive, attr-options-exhaustive, attr-owner-element; added in the third session: attr-snippet-elements-and-cache, attr-doubled-shorthand-name-maps, attr-modifier-combinations, attr-name-case.',
     },
     'C04': {
         'category': 'other',
@@ -106,7 +106,7 @@ LEVELS = {
         'design_ref': 'DESIGN.md section 7 (C04)',
         'note': 'Trusted: CPython for the bounded part; the independent tag parser / executable spec of the bounded oracle.',
         'technique': TECH + '; bounded stand-in: exhaustive text payloads and wrap lists',
-        'clauses': 'P: tokenizer literal and context predicates, convert.insert_text, stringify.RepeaterPlaceholder; B: inline-text-exhaustive, attr-text-exhaustive, wrap-implicit-repeater, wrap-whole-text, text-unicode-line-separators.',
+        'clauses': 'P: tokenizer literal and context predicates, convert.insert_text, stringify.RepeaterPlaceholder; B: inline-text-exhaustive, attr-text-exhaustive, wrap-implicit-repeater, wrap-whole-text, text-unicode-line-separators; added in the third session: wrap-implicit-generated.',
     },
     'C07': {
         'category': 'other',
@@ -114,7 +114,7 @@ LEVELS = {
         'design_ref': 'DESIGN.md section 7 (C07)',
         'note': 'Trusted: CPython for the bounded part; the independent tag parser / executable spec of the bounded oracle.',
         'technique': TECH + '; bounded stand-in: exhaustive short inputs + corpus prefixes/mutations x configurations',
-        'clauses': 'P: Scanner.error, both tokenizers, TokenScanner, markup parser (12 functions), stylesheet parser (5 functions); B: 13 clauses (markup/stylesheet exhaustive, prefixes, mutations, snippet names, random).',
+        'clauses': 'P: Scanner.error, both tokenizers, TokenScanner, markup parser (12 functions), stylesheet parser (5 functions); B: 13 clauses (markup/stylesheet exhaustive, prefixes, mutations, snippet names, random); added in the third session: markup-exhaustive-full, markup-exhaustive-mid, markup-exhaustive-long, markup-prefixes, markup-mutations, markup-snippet-names, markup-random, stylesheet-exhaustive-full, stylesheet-exhaustive-long, stylesheet-nocache, stylesheet-prefixes-mutations, stylesheet-snippet-keys, stylesheet-random.',
     },
     'C08': {
         'category': 'other',
@@ -122,7 +122,7 @@ LEVELS = {
         'design_ref': 'DESIGN.md section 7 (C08)',
         'note': 'Trusted: CPython for the bounded part; the independent tag parser / executable spec of the bounded oracle.',
         'technique': TECH + '; bounded stand-in: call histories vs fresh-interpreter reference, retention monitor',
-        'clauses': 'P: merged_data frame, Config.__init__, markup.parse restores text on every exit; B: markup-shared-cache, raise-inside-resolution, shared-cache, shared-config-object, independent-calls, random-histories, no-retention.',
+        'clauses': 'P: merged_data frame, Config.__init__, markup.parse restores text on every exit; B: markup-shared-cache, raise-inside-resolution, shared-cache, shared-config-object, independent-calls, random-histories, no-retention; added in the third session: markup-option-switch, snippet-value-units, context-switch, snippet-table-switch.',
     },
     'C11': {
         'category': 'other',
@@ -130,7 +130,7 @@ LEVELS = {
         'design_ref': 'DESIGN.md section 7 (C11)',
         'note': 'Trusted: pyvc encoding; external contract for re.sub(r"^[*+>^]+", "", s) (suffix starting at the first other character).',
         'technique': TECH + '; bounded stand-in: grammar-generated abbreviations x left/right contexts',
-        'clauses': 'P: all of extract_abbreviation (reader, is_html, __init__); B: consistency-exhaustive (cross-check), roundtrip-* clauses.',
+        'clauses': 'P: all of extract_abbreviation (reader, is_html, __init__); B: consistency-exhaustive (cross-check), roundtrip-* clauses; added in the third session: consistency-narrow, roundtrip-markup, roundtrip-markup-random, roundtrip-stylesheet, roundtrip-tag-lookalike, roundtrip-left-tag-unquoted, roundtrip-stylesheet-function-args, roundtrip-markup-attr-text, roundtrip-after-tag-quoted-text.',
     },
     'C12': {
         'category': 'other',
@@ -138,7 +138,7 @@ LEVELS = {
         'design_ref': 'DESIGN.md section 7 (C12)',
         'note': 'Trusted: CPython for the bounded part; the independent tag parser / executable spec of the bounded oracle.',
         'technique': TECH + '; bounded stand-in: option-pair comparisons, indentation oracle',
-        'clauses': 'P: format.html.get_indent, OutputStream.*; B: cosmetic-pairs, indent-equals-depth, selfclose-exact.',
+        'clauses': 'P: format.html.get_indent, OutputStream.*; B: cosmetic-pairs, indent-equals-depth, selfclose-exact; added in the third session: cosmetic-pairs-context, indent-equals-depth-context, selfclose-exact-context.',
     },
     'C13': {
         'category': 'other',
@@ -146,7 +146,7 @@ LEVELS = {
         'design_ref': 'DESIGN.md section 7 (C13)',
         'note': 'Trusted: CPython for the bounded part; the independent tag parser / executable spec of the bounded oracle.',
         'technique': TECH + '; bounded stand-in: recording callbacks over generated abbreviations x newline/indent settings',
-        'clauses': 'P: OutputStream._push/push/push_string/push_newline/push_indent/push_field, format.utils.push_tokens; B: callback-positions(-multiline-placeholder), tabstops-auto, tabstops-explicit.',
+        'clauses': 'P: OutputStream._push/push/push_string/push_newline/push_indent/push_field, format.utils.push_tokens; B: callback-positions(-multiline-placeholder), tabstops-auto, tabstops-explicit; added in the third session: callback-positions-multiline-placeholder, tabstops-comment, callback-positions-multiline-literal.',
     },
     'C14': {
         'category': 'other',
@@ -154,7 +154,7 @@ LEVELS = {
         'design_ref': 'DESIGN.md section 7 (C14)',
         'note': 'Trusted: CPython for the bounded part; the independent tag parser / executable spec of the bounded oracle.',
         'technique': TECH + '; complete enumeration of the built-in snippet tables; bounded stand-in for decorated aliases and user tables',
-        'clauses': 'P: markup.snippets resolve closure; F: snippet-keys, builtin-alias; B: alias-decorated, user-tables.',
+        'clauses': 'P: markup.snippets resolve closure; F: snippet-keys, builtin-alias; B: alias-decorated, user-tables; added in the third session: alias-nested, alias-decorated-options, alias-after-history.',
     },
     'C15': {
         'category': 'other',
@@ -162,7 +162,7 @@ LEVELS = {
         'design_ref': 'DESIGN.md section 7 (C15)',
         'note': 'Trusted: CPython for the bounded part; the independent tag parser / executable spec of the bounded oracle.',
         'technique': TECH + '; bounded stand-in: exhaustive skeletons, head forms, text-only / self-closing placements',
-        'clauses': 'P: format.indent_format.element; B: lines-skeleton-exhaustive, head-forms, text-only-self-closing-levels/-heads, random-large.',
+        'clauses': 'P: format.indent_format.element; B: lines-skeleton-exhaustive, head-forms, text-only-self-closing-levels/-heads, random-large; added in the third session: text-only-self-closing-heads, class-count, line-break-kinds, random-wide-heads-line-breaks, implied-attributes, self-closing-parents, self-closing-parents-skeletons, random-self-closing-implied.',
     },
     'C19': {
         'category': 'other',
@@ -170,6 +170,6 @@ LEVELS = {
         'design_ref': 'DESIGN.md section 7 (C19)',
         'note': 'Trusted: CPython for the bounded part; the independent tag parser / executable spec of the bounded oracle.',
         'technique': TECH + '; bounded stand-in: exhaustive token sequences vs independent evaluator',
-        'clauses': 'P: math_expression.extract number/extract, parser consume_number/op1/op2/number/order_tokens/parse; B: evaluate-token-sequences(-narrow), evaluate-wellformed-deeper, evaluate-random, evaluate-strings, evaluate-intdiv-literals, extract-exhaustive.',
+        'clauses': 'P: math_expression.extract number/extract, parser consume_number/op1/op2/number/order_tokens/parse; B: evaluate-token-sequences(-narrow), evaluate-wellformed-deeper, evaluate-random, evaluate-strings, evaluate-intdiv-literals, extract-exhaustive; added in the third session: evaluate-token-sequences-narrow.',
     },
 }
